@@ -326,6 +326,10 @@ func demangleSingleFunction(fn *profile.Function, options []demangle.Option) {
 				name = removeMatching(name, '<', '>')
 			}
 		}
+		if name == "" {
+			// Nothing is left of the name: keep it unsimplified.
+			name = fn.SystemName
+		}
 	}
 	fn.Name = name
 }
